@@ -71,6 +71,16 @@ def rule_who(R):
                         r, nm = chain(si["subject"])
                         if nm[-2:] == ["@Control", "0"]:
                             edge = si["edges"]["PingReq"]
+                    # `action == ControlAction::PingReq` (derived PartialEq) on the flushed control packet's action
+                    alts_ = [peel(x_) for x_ in phi_alts(peel(si["subject"]))]
+                    eqs_ = [x_ for x_ in alts_ if is_call(x_, "PartialEq::eq", "eq") and len(x_[3]) == 2]
+                    # the flag may also be `false` (not a control packet at all): only the comparison can take the true edge
+                    if len(eqs_) == 1 and all(x_ is eqs_[0] or (x_[0] == "const" and x_[2] == 0) for x_ in alts_) and si["edges"].get(True) is not None:
+                        sj_ = eqs_[0]
+                        for a_, b_ in ((sj_[3][0], sj_[3][1]), (sj_[3][1], sj_[3][0])):
+                            bb_ = peel(b_)
+                            if chain(a_)[1][-2:] == ["@Control", "0"] and bb_[0] == "agg" and (bb_[2] or "").endswith("ControlAction") and bb_[3] == "PingReq":
+                                edge = si["edges"][True]
                 okp = False
                 if edge is not None:
                     # path-sensitive both ways: store only via the PingReq edge, and from the edge always the store
@@ -288,6 +298,16 @@ def rule_due(R):
                         r_, n_ = chain(si["subject"])
                         if isinstance(r_, tuple) and r_[0] == "call" and r_[1] == nx.bb and n_[-1:] == ["action"]:
                             return True
+                    # `entry.action == ControlAction::PingReq` (derived PartialEq), true edge taken
+                    sj_ = peel(si["subject"])
+                    if is_call(sj_, "PartialEq::eq", "eq") and len(sj_[3]) == 2 and si["edges"].get(True) == path[i + 1]:
+                        for a_, b_ in ((sj_[3][0], sj_[3][1]), (sj_[3][1], sj_[3][0])):
+                            r_, n_ = chain(a_)
+                            r_ = peel(r_)
+                            bb_ = peel(b_)
+                            if isinstance(r_, tuple) and r_[0] == "call" and r_[1] == nx.bb and n_[-1:] == ["action"] \
+                                    and bb_[0] == "agg" and (bb_[2] or "").endswith("ControlAction") and bb_[3] == "PingReq":
+                                return True
             return False
         okh = roles.membership_loop(hp, "pending_control", pingreq_hit)
     R.ob("due/pending-lookup", okh, "a PINGREQ that is queued but not yet sent is found by a lookup in the control queue "
@@ -403,6 +423,13 @@ def rule_check(R):
         vals = [code.rvalue_term(s2["rv"]) for x in code.reach([te], avoid=[fe]) for s2 in code.blocks[x]["stmts"]
                 if s2["k"] == "assign" and s2["dst"]["l"] == 0]
         okv = bool(vals) and all("Disconnected" in show(v) for v in vals)
+        if not okv:
+            # the expiry branch may sit in a folded-in helper whose Err(Disconnected) comes back through `?`
+            vs2 = []
+            for lf in paths.explore(code, te, lambda t: False, lambda b_, x_: False, max_paths=200):
+                if lf["kind"] == "return":
+                    vs2.append(paths.value_on_path(code, [sw["bb"]] + lf["path"], 0))
+            okv = bool(vs2) and all(v is not None and "Disconnected" in show(v) for v in vs2)
         ok = okdom and okabs and okl and okv
     R.ob("check/expiry-first", ok,
          "service() tests `now >= ping_timeout` (absent = not expired) before any outbound work; on expiry it latches the "
@@ -609,6 +636,17 @@ def rule_const(R):
     for bb in ks.switches:
         si = ks.switch_info(bb)
         s = peel(si["subject"])
+        zt = None
+        # `match keepalive_ms { 0 => None, ms => .. }`: an integer switch on the value itself
+        if si["enum"] is None and any(k_ == 0 and not isinstance(k_, bool) for k_ in si["edges"]) \
+                and any(x[0] == "field" and x[2] == "keepalive_interval" for x in walk(s)):
+            zt = [t_ for k_, t_ in si["edges"].items() if k_ == 0 and not isinstance(k_, bool)][0]
+            vals = []
+            for lf in paths.explore(ks, zt, lambda t_: False, lambda b_, x_: False):
+                if lf["kind"] == "return":
+                    vals.append(paths.value_on_path(ks, [bb] + lf["path"], 0))
+            okz = okz or (bool(vals) and all(v is not None and v[0] == "agg" and v[3] == "None" for v in vals))
+            continue
         if s[0] == "bin" and s[1] in ("Eq", "Ne") and any(x[0] == "const" and x[2] == 0 for x in (s[2], s[3])):
             zero_lab = (s[1] == "Eq")
             zt, nz = si["edges"].get(zero_lab), si["edges"].get(not zero_lab)
